@@ -1019,6 +1019,8 @@ def iter_all(ex, args, callee):
 
 @stub('<* as Iterator>::count')
 def iter_count(ex, args, callee):
+    if isinstance(args[0], Native) and args[0].rty == 'CharsIter':
+        return chars_count(ex, args, callee)
     c = Cell(args[0], 'count-iter')
     return mk_int(sum(1 for _ in _drain(ex, Ref(c, (), True))), 'usize')
 
@@ -1580,3 +1582,21 @@ def slice_first_last(ex, args, callee):
         return NONE
     i = 0 if callee.rstrip().endswith('first') else len(v.elems) - 1
     return some(Ref(r.cell, r.path + (i,), False))
+
+
+_nchars_fn = z3.Function('nchars', z3.BitVecSort(64), z3.BitVecSort(64))
+
+
+@stub('str::chars')
+def str_chars(ex, args, callee):
+    return Native('CharsIter', as_str(ex, args[0]), fresh_id())
+
+
+def chars_count(ex, args, callee):
+    it = args[0]
+    s = it.state
+    ln = s.length()
+    n = ex.fresh('nchars', 64)
+    # a UTF-8 string of len bytes has between ceil(len/4) and len characters
+    ex.assume(z3.And(z3.ULE(n, ln), z3.UGE(n * 4, ln)))
+    return Int(n, 'usize')
